@@ -39,8 +39,8 @@ func ParsePolicyRequest(line string) (p *Policy, rest []string, err error) {
 		}
 	}()
 	t := &toks{f: strings.Fields(line)}
-	t.next() // verb
-	p = &Policy{Arch: t.next(), Endian: t.next()}
+	verb := t.next()
+	p = &Policy{Arch: t.next(), Endian: t.next(), Shared: verb == "PS"}
 	p.Default = uint32(t.u64())
 	ng := int(t.u64())
 	for g := 0; g < ng; g++ {
